@@ -40,6 +40,11 @@ for line in open(spec):
     r = subprocess.run(cmd, capture_output=True, text=True)
     viol = [l for l in r.stdout.splitlines() if l.startswith("  entry=")]
     caught = r.returncode == 1
+    if "LOAD ERROR" in r.stdout + r.stderr:
+        print(f"MUTANT-INVALID {n}: {rel}: {old!r} -> {new!r}: does not type-check")
+        ok = False
+        subprocess.run(["rm", "-rf", d])
+        continue
     status = "caught" if caught else ("survived(exit=%d)" % r.returncode)
     good = (caught != equiv)
     print(f"{'OK ' if good else 'BAD'} mutant {n}: {rel}: {old!r} -> {new!r}: {status} {viol[:1]}")
